@@ -12,7 +12,6 @@ from __future__ import annotations
 import ast
 
 from ..alias import (
-    FRESH,
     Classifier,
     Facts,
     Path,
@@ -32,7 +31,7 @@ from ..alias import (
     writes_of,
 )
 from ..core import AnalysisError, Report
-from ..index import ClassInfo, FuncInfo, get_index
+from ..index import ClassInfo, get_index
 
 MEM = "pde/storage/memory.py"
 BASE = "pde/storage/base.py"
@@ -368,7 +367,9 @@ def check_get_field(rep: Report, ix, clf: Classifier) -> None:
             )
             continue
         ws = writes_of(p, clf, f)
-        fills = [w for w in ws if w.kind == "rebind" and w.attr == "data" and chain_str(w.node.value) == chain_str(p.value)]
+        ret = chain_str(p.value)
+        # `<copy>.data = frame` (setter, by value) or `<copy>.data[...] = frame`
+        fills = [w for w in ws if (w.kind == "rebind" and w.attr == "data" and chain_str(w.node.value) == ret) or (w.kind == "store" and w.chain in (f"{ret}.data", f"{ret}._data_valid"))]
         ok = False
         for w in fills:
             val = expand(w.value, p, w.idx) if w.value is not None else None
